@@ -145,7 +145,7 @@ func main() {
 				seqSeed := wr.U64()
 				done += runSeq(res, typ, seqSeed, keys)
 				seqs++
-				if res.NViolations() >= 150 {
+				if res.NViolations() >= 150 || res.TimeUp() {
 					break
 				}
 			}
